@@ -581,6 +581,12 @@ func (ro *RedisOutput) sendRdb(pctx context.Context, reader ChannelReader) error
 		ro.logger.Errorf("send rdb ERROR : runId(%s), offset(%d), size(%d), error(%v)", reader.RunId(), reader.Left(), reader.Size(), errs[0])
 		return err
 	}
+	// the replay workers leave their loops with a nil error when the context is cancelled,
+	// a stopped replay must not be recorded as a completed full sync
+	if err := ctx.Err(); err != nil {
+		ro.logger.Infof("send rdb interrupted : runId(%s), offset(%d), size(%d), error(%v)", reader.RunId(), reader.Left(), reader.Size(), err)
+		return err
+	}
 	ro.logger.Debugf("send rdb OK : runId(%s), offset(%d), size(%d)", reader.RunId(), reader.Left(), reader.Size())
 	if ro.bisyncEnabled() {
 		ro.bisyncOffset.Store(reader.Left())
